@@ -630,6 +630,8 @@ func registerHTTPModels(e *Engine) {
 			}
 			return NilIface
 		}
+		// a template behind an interface (e.g. the module's own page-template interface)
+		e.NativeMeth["template.Execute"] = m["(*"+pkg+".Template).Execute"]
 	}
 }
 
